@@ -123,12 +123,12 @@ fn read_case(io: &Io, bytes: &[u8], label: &str, probes: &mut Probes) -> Option<
         probes.hit("delivered_in_small_pieces");
     }
     let art = || json!({"damage": label, "text": String::from_utf8_lossy(&bytes[..bytes.len().min(6000)]), "text_len": bytes.len()});
-    let t0 = std::time::Instant::now();
+    let t0 = thread_cpu_secs();
     let res = guard(|| LefLibrary::open(INP));
-    let dt = t0.elapsed();
-    // 50 ms + 1 us/byte, x100 margin: only a real hang can exceed it
-    if dt.as_micros() as u64 > 100 * (50_000 + bytes.len() as u64) {
-        return Some(Violation { class: "hang".into(), sig: "read-time-budget-exceeded".into(), detail: format!("reading {} bytes took {:?}", bytes.len(), dt), artefact: art() });
+    let dt = thread_cpu_secs() - t0;
+    // 50 ms + 1 us/byte of *CPU time of this thread*, x100 margin: machine load cannot trip it, only super-linear work can
+    if dt * 1e6 > 100.0 * (50_000.0 + bytes.len() as f64) {
+        return Some(Violation { class: "hang".into(), sig: "read-time-budget-exceeded".into(), detail: format!("reading {} bytes took {:.1}s of CPU time", bytes.len(), dt), artefact: art() });
     }
     match res {
         Err(p) => Some(panic_violation("LefLibrary::open", &p, art())),
@@ -191,7 +191,7 @@ impl Check for C11 {
         "One run = one valid LEF text (runs 0..11: the repository's macro.lef and the LEF snippets embedded in lef21's tests; others: G-lef renderings, 1 in 3 with non-ASCII comments/names) and, on it: EVERY prefix (cut at every byte; cuts inside a multi-byte character are delivered as raw bytes), EVERY single-token fault for every token of a harness tokenisation (deleted, duplicated, swapped with its neighbour, replaced by END/MACRO/LAYER/PIN/;/a number/an unterminated string/non-ASCII words, non-ASCII appended/prepended/inserted into names, string literals and comments, a non-ASCII comment line placed before the token; quick tier on texts > 1500 bytes: a seeded 1/4 sample of tokens), plus seeded multi-fault and random-text cases; three scale runs read 64 KiB, 256 KiB and 1 MiB texts (valid, cut, unterminated string, one very long name/number/comment, non-ASCII first line) so that super-linear behaviour trips the watchdog. Each case is stored in SimFs and read by the real LefLibrary::open; one case in eight is delivered in 1..7-byte pieces with EINTR, so multi-byte characters are split across read() calls. evaluations counts cases; non-trivial = damaged text differs from the valid one; distinct = distinct damaged-text digests.".into()
     }
     fn assumptions(&self) -> Vec<String> {
-        vec!["the parser performs no I/O after read_to_string, so termination is bounded by wall-clock (100 x (50 ms + 1 us/byte)) and the supervisor watchdog, not by a step counter".into(), "stack overflow / abort are contained by the child process".into(), "exhaustive over the listed fault kinds for the texts explored only".into()]
+        vec!["the parser performs no I/O after read_to_string, so termination is bounded by CPU time of the reading thread (100 x (50 ms + 1 us/byte)) and the supervisor watchdog (10 s of child CPU time without progress), not by a step counter".into(), "stack overflow / abort are contained by the child process".into(), "exhaustive over the listed fault kinds for the texts explored only".into()]
     }
     fn real_vs_stub(&self) -> Value {
         json!({"real": ["lef21 lexer, parser, error reporting, writer"], "stub": ["file system (SimFs) delivering the damaged text"], "harness_tokeniser": ["whitespace/string/comment splitter used to address tokens"]})
